@@ -1,1 +1,121 @@
-// placeholder
+//! Hooked into `rust/src/step_sim.rs` (child module: builds `StepEnv` directly).  C19 array
+//! layouts and the StepEnv part of C18.
+#![allow(dead_code)]
+#![allow(clippy::all)]
+#![cfg(kani)]
+use super::*;
+use crate::verif::*;
+use bourse_book::types::{Level2Data, Status};
+use bourse_book::verif::book::*;
+use bourse_book::verif::src::*;
+use bourse_book::{vcheck, vcover};
+
+/// arbitrary market data behind the observation arrays (asymmetric: every field its own variable)
+pub fn any_l2() -> Level2Data<10> {
+    Level2Data {
+        bid_price: any_u32(),
+        ask_price: any_u32(),
+        bid_vol: any_u32(),
+        ask_vol: any_u32(),
+        bid_price_levels: core::array::from_fn(|_| (any_u32(), any_u32())),
+        ask_price_levels: core::array::from_fn(|_| (any_u32(), any_u32())),
+    }
+}
+pub fn copy_l2(d: &Level2Data<10>) -> Level2Data<10> {
+    Level2Data { bid_price: d.bid_price, ask_price: d.ask_price, bid_vol: d.bid_vol, ask_vol: d.ask_vol, bid_price_levels: d.bid_price_levels, ask_price_levels: d.ask_price_levels }
+}
+
+/// a StepEnv whose cached level-2 data and traded-volume counter are arbitrary
+pub fn any_step_env() -> (StepEnv, Level2Data<10>, u32) {
+    let mut env = BaseEnv::new(any_u64(), 1, any_u64(), any_bool());
+    let d = any_l2();
+    let keep = copy_l2(&d);
+    env.verif_set_level_2_data(d);
+    let tv = any_u32();
+    env.verif_book_mut().verif_set_trade_vol(tv);
+    (StepEnv { env, rng: Xoroshiro128StarStar::seed_from_u64(0) }, keep, tv)
+}
+
+/// the documented layout: [trade volume, bid price, ask price, bid volume, ask volume, then per
+/// level: bid volume, bid order count, ask volume, ask order count]
+pub fn documented_prefix(d: &Level2Data<10>, tv: u32) -> [u32; 5] {
+    [tv, d.bid_price, d.ask_price, d.bid_vol, d.ask_vol]
+}
+
+#[kani::proof]
+#[kani::unwind(12)]
+#[kani::stub(numpy::PyArray::from_slice, stub_from_slice)]
+pub fn c19_stepenv_level_1_data_array() {
+    let (se, d, tv) = any_step_env();
+    let py = unsafe { Python::assume_gil_acquired() };
+    let _ = se.level_1_data_array(py);
+    let (a, n, calls) = recorded();
+    vcheck!(calls == 1, "ARRAY.one_array_built");
+    vcheck!(n == 9, "ARRAY.level_1_array_has_the_documented_length_9");
+    let want = documented_prefix(&d, tv);
+    vcheck!(n < 1 || a[0] == want[0], "ARRAY.element_0_is_trade_volume");
+    vcheck!(n < 3 || (a[1] == want[1] && a[2] == want[2]), "ARRAY.elements_1_2_are_bid_and_ask_touch_price");
+    vcheck!(n < 5 || (a[3] == want[3] && a[4] == want[4]), "ARRAY.elements_3_4_are_bid_then_ask_total_volume");
+    vcheck!(n < 9 || (a[5] == d.bid_price_levels[0].0 && a[6] == d.bid_price_levels[0].1 && a[7] == d.ask_price_levels[0].0 && a[8] == d.ask_price_levels[0].1),
+        "ARRAY.elements_5_8_are_bid_touch_volume_count_then_ask_touch_volume_count");
+    core::mem::forget(se);
+}
+
+#[kani::proof]
+#[kani::unwind(12)]
+#[kani::stub(numpy::PyArray::from_slice, stub_from_slice)]
+pub fn c19_stepenv_level_2_data_array() {
+    let (se, d, tv) = any_step_env();
+    let py = unsafe { Python::assume_gil_acquired() };
+    let _ = se.level_2_data_array(py);
+    let (a, n, calls) = recorded();
+    vcheck!(calls == 1, "ARRAY.one_array_built");
+    vcheck!(n == 45, "ARRAY.level_2_array_has_the_documented_length_45");
+    let want = documented_prefix(&d, tv);
+    vcheck!(n < 1 || a[0] == want[0], "ARRAY.element_0_is_trade_volume");
+    vcheck!(n < 3 || (a[1] == want[1] && a[2] == want[2]), "ARRAY.elements_1_2_are_bid_and_ask_touch_price");
+    vcheck!(n < 5 || (a[3] == want[3] && a[4] == want[4]), "ARRAY.elements_3_4_are_bid_then_ask_total_volume");
+    let mut ok = n == 45;
+    let mut l = 0;
+    while l < 10 {
+        if n == 45 {
+            ok &= a[5 + 4 * l] == d.bid_price_levels[l].0 && a[6 + 4 * l] == d.bid_price_levels[l].1;
+            ok &= a[7 + 4 * l] == d.ask_price_levels[l].0 && a[8 + 4 * l] == d.ask_price_levels[l].1;
+        }
+        l += 1;
+    }
+    vcheck!(ok, "ARRAY.per_level_block_is_bid_volume_bid_count_ask_volume_ask_count");
+    core::mem::forget(se);
+}
+
+/// C18: scalar getters and status codes of StepEnv are transparent views of the core
+#[kani::proof]
+#[kani::unwind(12)]
+pub fn c18_stepenv_getters() {
+    let p: Plain<3> = gen_plain::<3>(2, OFF);
+    let book = build::<3, 10>(&p, 0);
+    let mut env: BaseEnv = BaseEnv::verif_from_book(any_u64(), book);
+    let d = any_l2();
+    let keep = copy_l2(&d);
+    env.verif_set_level_2_data(d);
+    let mut se = StepEnv { env, rng: Xoroshiro128StarStar::seed_from_u64(0) };
+    vcheck!(se.time() == p.t, "PY.time_is_the_core_clock");
+    vcheck!(se.bid_vol() == keep.bid_vol && se.ask_vol() == keep.ask_vol, "PY.total_volumes_from_the_step_snapshot");
+    vcheck!(se.best_bid_vol() == keep.bid_price_levels[0].0 && se.best_ask_vol() == keep.ask_price_levels[0].0, "PY.touch_volumes_from_the_step_snapshot");
+    vcheck!(se.best_bid_vol_and_orders() == keep.bid_price_levels[0] && se.best_ask_vol_and_orders() == keep.ask_price_levels[0], "PY.touch_volume_and_count_from_the_step_snapshot");
+    vcheck!(se.bid_ask() == (keep.bid_price, keep.ask_price), "PY.bid_ask_from_the_step_snapshot");
+    vcheck!(se.trade_vol() == p.trade_vol, "PY.trade_vol_is_the_core_counter");
+    let id = any_usize();
+    assume(id < 2);
+    let code = se.order_status(id);
+    let want: u8 = match entry_order(&p.e[id]).status {
+        Status::New => 0,
+        Status::Active => 1,
+        Status::Filled => 2,
+        Status::Cancelled => 3,
+        Status::Rejected => 4,
+    };
+    vcheck!(code == want, "PY.status_codes_0_new_1_active_2_filled_3_cancelled_4_rejected");
+    vcover!(code == 4, "cover.rejected_order");
+    core::mem::forget(se);
+}
